@@ -5,6 +5,7 @@ import (
 	"fmt"
 	"io"
 	"reflect"
+	"runtime"
 	"strings"
 
 	"github.com/parquet-go/parquet-go"
@@ -50,6 +51,8 @@ func (n *tnode) goType() reflect.Type {
 		return reflect.TypeOf("")
 	case "ptrint64":
 		return reflect.TypeOf((*int64)(nil))
+	case "ptrint32":
+		return reflect.TypeOf((*int32)(nil))
 	case "ptrstring":
 		return reflect.TypeOf((*string)(nil))
 	case "slice32", "list32":
@@ -69,6 +72,8 @@ func (n *tnode) goType() reflect.Type {
 		return reflect.PointerTo(st)
 	case "slicestruct":
 		return reflect.SliceOf(st)
+	case "mapstruct":
+		return reflect.MapOf(reflect.TypeOf(""), st)
 	}
 	return st
 }
@@ -103,11 +108,13 @@ var c12Sources = []*tnode{
 	group("R", "struct", group("LG", "ptrstruct", leaf("L", "slice32")), leaf("Z", "int32")),
 	group("R", "struct", group("GG", "ptrstruct", group("In", "struct", leaf("X", "int32"))), leaf("Z", "int32")),
 	group("R", "struct", group("SO", "slicestruct", leaf("A", "ptrint64"), leaf("N", "slice32")), leaf("Z", "int32")),
+	// map values
+	group("R", "struct", leaf("ID", "int64"), group("MS", "mapstruct", leaf("K", "int32"), leaf("V", "ptrstring")), leaf("T", "string")),
 }
 
 // structs lists every struct-like node of the tree (root included).
 func (n *tnode) structs(out *[]*tnode) {
-	if len(n.fields) > 0 || n.kind == "struct" || n.kind == "ptrstruct" || n.kind == "slicestruct" {
+	if len(n.fields) > 0 || n.kind == "struct" || n.kind == "ptrstruct" || n.kind == "slicestruct" || n.kind == "mapstruct" {
 		*out = append(*out, n)
 		for _, f := range n.fields {
 			f.structs(out)
@@ -120,20 +127,67 @@ type c12Edit struct {
 	desc  string
 	class string // position-independent class: op:parentKind[:addedKind]
 	apply func(root *tnode)
+	// incompat, when set, is the field path (from the root) of a field whose
+	// target type cannot represent the source column (leaf <-> group, single
+	// -> repeated): the target is incompatible at that field.
+	incompat []string
+}
+
+// fieldPaths maps every struct-like node to its field path from the root.
+func (n *tnode) fieldPaths(p []string, out map[*tnode][]string) {
+	out[n] = p
+	for _, f := range n.fields {
+		if len(f.fields) > 0 {
+			f.fieldPaths(append(append([]string{}, p...), f.name), out)
+		}
+	}
 }
 
 func c12Edits(root *tnode) []c12Edit {
 	var out []c12Edit
 	var ss []*tnode
 	root.structs(&ss)
+	fpaths := map[*tnode][]string{}
+	root.fieldPaths(nil, fpaths)
+	replace := func(si, fi int, repl *tnode) func(r *tnode) {
+		return func(r *tnode) {
+			var t []*tnode
+			r.structs(&t)
+			t[si].fields[fi] = repl.clone()
+		}
+	}
 	for si := range ss {
 		si := si
 		s := ss[si]
 		path := s.name
 		for fi := range s.fields {
 			fi := fi
+			f := s.fields[fi]
+			fpath := append(append([]string{}, fpaths[s]...), f.name)
+			// required -> optional: every source value is representable
+			if ok := map[string]string{"int32": "ptrint32", "int64": "ptrint64", "string": "ptrstring", "struct": "ptrstruct"}[f.kind]; ok != "" {
+				o := f.clone()
+				o.kind = ok
+				out = append(out, c12Edit{desc: fmt.Sprintf("optionalize %s.%s", path, f.name), class: "opt:" + s.kind + ":" + f.kind, apply: replace(si, fi, o)})
+			}
+			// incompatible targets: leaf <-> group, single <-> repeated
+			switch f.kind {
+			case "int32", "int64", "string":
+				out = append(out, c12Edit{desc: fmt.Sprintf("leaf-to-group %s.%s", path, f.name), class: "incompat:leaf-to-group:" + s.kind,
+					apply: replace(si, fi, group(f.name, "struct", leaf("P", "int32"))), incompat: fpath})
+				if f.kind == "int32" {
+					out = append(out, c12Edit{desc: fmt.Sprintf("single-to-repeated %s.%s", path, f.name), class: "incompat:single-to-repeated:" + s.kind,
+						apply: replace(si, fi, leaf(f.name, "slice32")), incompat: fpath})
+				}
+			// (repeated -> single is not generated: the library defines it as
+			// "keep the first element", a lossy mapping the statement neither
+			// lists as compatible nor can call unaltered; see DESIGN.md)
+			case "struct", "ptrstruct", "slicestruct", "mapstruct":
+				out = append(out, c12Edit{desc: fmt.Sprintf("group-to-leaf %s.%s", path, f.name), class: "incompat:group-to-leaf:" + f.kind,
+					apply: replace(si, fi, leaf(f.name, "int32")), incompat: fpath})
+			}
 			if len(s.fields) > 1 {
-				out = append(out, c12Edit{fmt.Sprintf("delete %s.%s", path, s.fields[fi].name), "delete:" + s.kind + ":" + s.fields[fi].kind, func(r *tnode) {
+				out = append(out, c12Edit{desc: fmt.Sprintf("delete %s.%s", path, s.fields[fi].name), class: "delete:" + s.kind + ":" + s.fields[fi].kind, apply: func(r *tnode) {
 					var t []*tnode
 					r.structs(&t)
 					n := t[si]
@@ -141,7 +195,7 @@ func c12Edits(root *tnode) []c12Edit {
 				}})
 			}
 			if fi+1 < len(s.fields) {
-				out = append(out, c12Edit{fmt.Sprintf("swap %s.%s<->%s", path, s.fields[fi].name, s.fields[fi+1].name), "swap:" + s.kind, func(r *tnode) {
+				out = append(out, c12Edit{desc: fmt.Sprintf("swap %s.%s<->%s", path, s.fields[fi].name, s.fields[fi+1].name), class: "swap:" + s.kind, apply: func(r *tnode) {
 					var t []*tnode
 					r.structs(&t)
 					n := t[si]
@@ -170,7 +224,7 @@ func c12Edits(root *tnode) []c12Edit {
 				if pos != 0 {
 					first = "last"
 				}
-				out = append(out, c12Edit{fmt.Sprintf("add %s.%s@%d", path, a.name, pos), "add:" + s.kind + ":" + a.kind + ":" + first, func(r *tnode) {
+				out = append(out, c12Edit{desc: fmt.Sprintf("add %s.%s@%d", path, a.name, pos), class: "add:" + s.kind + ":" + a.kind + ":" + first, apply: func(r *tnode) {
 					var t []*tnode
 					r.structs(&t)
 					n := t[si]
@@ -188,6 +242,21 @@ func c12Edits(root *tnode) []c12Edit {
 // added fields zero.
 func c12Project(src reflect.Value, tt reflect.Type) reflect.Value {
 	out := reflect.New(tt).Elem()
+	if tt.Kind() == reflect.Pointer {
+		if src.Kind() == reflect.Pointer {
+			if src.IsNil() {
+				return out
+			}
+			src = src.Elem()
+		}
+		p := reflect.New(tt.Elem())
+		p.Elem().Set(c12Project(src, tt.Elem()))
+		out.Set(p)
+		return out
+	}
+	if src.Kind() != tt.Kind() {
+		return out // incompatible field: ignored by the caller
+	}
 	switch tt.Kind() {
 	case reflect.Struct:
 		for i := 0; i < tt.NumField(); i++ {
@@ -197,26 +266,55 @@ func c12Project(src reflect.Value, tt reflect.Type) reflect.Value {
 				out.Field(i).Set(c12Project(sf, f.Type))
 			}
 		}
-	case reflect.Pointer:
-		if !src.IsNil() {
-			p := reflect.New(tt.Elem())
-			p.Elem().Set(c12Project(src.Elem(), tt.Elem()))
-			out.Set(p)
-		}
 	case reflect.Slice:
-		if tt.Elem().Kind() == reflect.Struct {
-			s := reflect.MakeSlice(tt, src.Len(), src.Len())
-			for i := 0; i < src.Len(); i++ {
-				s.Index(i).Set(c12Project(src.Index(i), tt.Elem()))
-			}
-			out.Set(s)
-		} else {
-			out.Set(src)
+		s := reflect.MakeSlice(tt, src.Len(), src.Len())
+		for i := 0; i < src.Len(); i++ {
+			s.Index(i).Set(c12Project(src.Index(i), tt.Elem()))
 		}
+		out.Set(s)
+	case reflect.Map:
+		m := reflect.MakeMapWithSize(tt, src.Len())
+		it := src.MapRange()
+		for it.Next() {
+			m.SetMapIndex(it.Key(), c12Project(it.Value(), tt.Elem()))
+		}
+		out.Set(m)
 	default:
 		out.Set(src)
 	}
 	return out
+}
+
+// c12ZeroAt clears the field at the given field path wherever it occurs below v.
+func c12ZeroAt(v reflect.Value, path []string) {
+	switch v.Kind() {
+	case reflect.Pointer:
+		if !v.IsNil() {
+			c12ZeroAt(v.Elem(), path)
+		}
+	case reflect.Slice:
+		for i := 0; i < v.Len(); i++ {
+			c12ZeroAt(v.Index(i), path)
+		}
+	case reflect.Map:
+		it := v.MapRange()
+		for it.Next() {
+			nv := reflect.New(v.Type().Elem()).Elem()
+			nv.Set(it.Value())
+			c12ZeroAt(nv, path)
+			v.SetMapIndex(it.Key(), nv)
+		}
+	case reflect.Struct:
+		f := v.FieldByName(path[0])
+		if !f.IsValid() {
+			return
+		}
+		if len(path) == 1 {
+			f.Set(reflect.Zero(f.Type()))
+		} else {
+			c12ZeroAt(f, path[1:])
+		}
+	}
 }
 
 var c12Paths = []string{"NewReader(schema)", "ConvertRowGroup", "CopyRows", "MergeRowGroups(schema)", "GenericReader[any](schema)"}
@@ -228,6 +326,7 @@ func c12Run(x *engine.X) {
 	edits := c12Edits(srcN)
 	tgtN := srcN.clone()
 	var ed, classes []string
+	var incompat [][]string
 	maxEdits := 1
 	if x.Tier == "thorough" {
 		maxEdits = 2
@@ -239,6 +338,17 @@ func c12Run(x *engine.X) {
 		} else {
 			list = c12Edits(tgtN)
 		}
+		if len(incompat) > 0 {
+			// a second type change of the same field would compose into a
+			// repeated -> single change of a group, which is not generated
+			var keep []c12Edit
+			for _, ed := range list {
+				if ed.incompat == nil || strings.Join(ed.incompat, ".") != strings.Join(incompat[0], ".") {
+					keep = append(keep, ed)
+				}
+			}
+			list = keep
+		}
 		c := x.Choose(len(list)+1, "edit")
 		if c == 0 {
 			break
@@ -246,6 +356,9 @@ func c12Run(x *engine.X) {
 		list[c-1].apply(tgtN)
 		ed = append(ed, list[c-1].desc)
 		classes = append(classes, list[c-1].class)
+		if list[c-1].incompat != nil {
+			incompat = append(incompat, list[c-1].incompat)
+		}
 	}
 	st, tt := srcN.goType(), tgtN.goType()
 	rowsAlpha := rowAlphabet(st)
@@ -331,10 +444,14 @@ func c12Run(x *engine.X) {
 		return fmt.Errorf("no EOF")
 	}
 	var rerr error
+	crashed := false
 	func() {
 		defer func() {
 			if r := recover(); r != nil {
 				rerr = fmt.Errorf("panic: %v", r)
+				if _, isRuntime := r.(runtime.Error); isRuntime || func() bool { _, isErr := r.(error); return !isErr }() {
+					crashed = true // not the documented panic(err) of NewReader on a Convert error
+				}
 			}
 		}()
 		switch path {
@@ -421,6 +538,38 @@ func c12Run(x *engine.X) {
 			rerr = readRowsInto(mrows)
 		}
 	}()
+	if len(incompat) > 0 {
+		// incompatible target: it must be rejected with an error, or at least
+		// every OTHER column must still be exactly the source's and the rows
+		// all there (what the mismatched field reads as is not defined)
+		if crashed {
+			x.Failf("panic", shape, "incompatible target: %v", rerr)
+			return
+		}
+		if rerr != nil {
+			x.Count("incompatible-rejected")
+			x.Outcome("rejected")
+			return
+		}
+		x.Count("incompatible-accepted")
+		if len(got) != len(rows) {
+			x.Failf("row-count", shape, "incompatible target accepted without error and %d rows read for %d written", len(got), len(rows))
+			return
+		}
+		for i := range rows {
+			want := c12Project(rows[i], tt)
+			for _, p := range incompat {
+				c12ZeroAt(want, p)
+				c12ZeroAt(got[i], p)
+			}
+			if ok, why := eqNorm(want, got[i], false); !ok {
+				x.Failf("altered", shape+";field="+fieldOfDiff(why), "incompatible target (at %v) accepted without error and row %d differs in another column: %s\n  src:  %+v\n  want: %+v\n  got:  %+v", incompat, i, why, rows[i].Interface(), want.Interface(), got[i].Interface())
+				return
+			}
+		}
+		x.Outcome("accepted")
+		return
+	}
 	if rerr != nil {
 		// every generated target is compatible (fields only added, dropped or permuted): a rejection is a failure to honour the property's first half
 		x.Failf("rejected", shape, "compatible target schema rejected: %v", rerr)
